@@ -10,7 +10,7 @@
    other datatype.  The harness validates it against the real DisplayContext on every run. *)
 From Coq Require Import ZArith List Bool Arith Lia.
 From Coq Require String.
-From Verif Require Model.PyMini Model.PrimsRender Gen.SrcRender Proofs.SrcRender Proofs.SrcRenderTop Proofs.SrcRenderCsv.
+From Verif Require Model.PyMini Model.PrimsRender Gen.SrcRender Proofs.SrcRender Proofs.SrcRenderTop Proofs.SrcRenderCsv Proofs.SrcRenderText.
 Import ListNotations.
 From Verif Require Import Base.Out Base.StableSort Base.PyValue Model.Render Model.RenderCheck Proofs.RenderProofs Proofs.RenderCheckProofs.
 
@@ -218,7 +218,7 @@ Proof. vm_compute. reflexivity. Qed.
    strftime, as_tuple and the f-string alignment specs are assumed to do) yields the renderer functions of
    Model/Render.v the theorems above are stated over. *)
 Import Coq.Strings.String Verif.Model.PyMini Verif.Model.PrimsRender Verif.Gen.SrcRender Verif.Proofs.SrcRender
-  Verif.Proofs.SrcRenderTop Verif.Proofs.SrcRenderCsv.
+  Verif.Proofs.SrcRenderTop Verif.Proofs.SrcRenderCsv Verif.Proofs.SrcRenderText.
 
 Theorem C16_source_base_prepare : forall (call_ref : nat -> list pv -> pv) (w p : pv) (rest : env),
   call_method call_ref prims_render render_base_prepare (("maxwidth", w) :: ("prepared", p) :: rest)%string [] =
@@ -375,3 +375,36 @@ Theorem C16_source_render_csv_refs :
   nth_error refs 1 = Some (1%nat, "beanquery.query_render.render_rows"%string).
 Proof. exact csv_refs. Qed.
 Print Assumptions C16_source_render_csv_refs.
+
+(* ---- render_text (PARTIAL).  Intended full statement, not yet proved: running render_text_fn leaves in `file`
+     f0 ++ unlines (text_lines o desc rows)   [= f0 ++ the text of Render.render_text].
+   Proved: its first six statements (text_prefix: RenderContext, renderers, headers, alignment, the priming loop, widths),
+   for all options, descriptions and rows: widths = Render.table_widths (max(1, narrow or len(header), len(nullvalue),
+   prepare()) per column), the renderers have seen exactly Render.column of their column (col_states, through
+   C16-level lemma col_states_fold used in the proof), alignment = Render.align_of.
+   Missing: the style selection (boxed / unicode), the header line (truncate + center), the loop writing one padded
+   line per line of render_rows, top / hline / bottom. *)
+Theorem C16_source_render_text_widths_partial : forall (call_ref : nat -> list pv -> pv) (quant : dec -> str -> dec)
+    (numfmt : list (dec * str) -> dec -> str -> str) (dc : pv) (o : opts),
+  (forall t c, call_ref 0%nat [enc_rdtype t; c] = robj t c []) ->
+  forall (desc : list (str * dtype)) (rows : list (list cellv)) (f0 : str),
+  exists s',
+    PyMini.exec_block call_ref (prims_top quant numfmt) {| locals := text_locals dc o desc rows f0; fields := [] |}
+      text_prefix = Ok (Next s') /\
+    lookup "widths"%string (locals s') =
+      Some (PList (map (fun w => PInt (Z.of_nat w)) (table_widths quant numfmt o desc rows))) /\
+    lookup "renderers"%string (locals s') =
+      Some (PList (map (rend dc o) (fold_left upd rows (map (fun d => (snd d, [])) desc)))) /\
+    lookup "alignment"%string (locals s') =
+      Some (PList (map (fun d => PInt (match align_of (snd d) with ARight => 1 | ALeft => 0 end)) desc)) /\
+    lookup "headers"%string (locals s') = Some (PList (map enc_s (map fst desc))) /\
+    lookup "ctx"%string (locals s') = Some (enc_ctx dc o) /\ lookup "file"%string (locals s') = Some (enc_s f0).
+Proof. exact text_widths_src. Qed.
+Print Assumptions C16_source_render_text_widths_partial.
+
+(* what the renderers have seen after the priming loop is Render.col_states *)
+Theorem C16_source_priming_is_col_states : forall (quant : dec -> str -> dec) (o : opts) (desc : list (str * dtype))
+    (rows : list (list cellv)),
+  map (rstate_of quant o) (fold_left upd rows (map (fun d => (snd d, [])) desc)) = col_states quant o desc rows.
+Proof. exact col_states_fold. Qed.
+Print Assumptions C16_source_priming_is_col_states.
